@@ -67,14 +67,16 @@ type StoreIn struct {
 }
 
 type Input struct {
-	Lazy   bool      `json:"lazy"`
-	Buf    int       `json:"buf"`
-	WRL    []string  `json:"wrl"`
-	Limit  int64     `json:"limit"`
-	Batch  int64     `json:"batch"`
-	Abort  bool      `json:"abort"`
-	Jitter int       `json:"jitter"` // 0 none; n>0: receivers yield / sleep pseudo-randomly (seeded by n)
-	Stores []StoreIn `json:"stores"`
+	Lazy  bool     `json:"lazy"`
+	Buf   int      `json:"buf"`
+	WRL   []string `json:"wrl"`
+	Limit int64    `json:"limit"`
+	Batch int64    `json:"batch"`
+	Abort bool     `json:"abort"`
+	// Disabled sets the deprecated SeriesRequest.PartialResponseDisabled flag
+	Disabled bool      `json:"disabled,omitempty"`
+	Jitter   int       `json:"jitter"` // 0 none; n>0: receivers yield / sleep pseudo-randomly (seeded by n)
+	Stores   []StoreIn `json:"stores"`
 }
 
 // ---- building protobuf messages ----
@@ -215,6 +217,7 @@ func RunProxy(in Input, responseTimeout time.Duration) Result {
 		Limit:                in.Limit,
 		ResponseBatchSize:    in.Batch,
 	}
+	req.PartialResponseDisabled = in.Disabled
 	if in.Abort {
 		req.PartialResponseStrategy = storepb.PartialResponseStrategy_ABORT
 	} else {
